@@ -5,9 +5,14 @@ WT=$1; MD=$2
 cd "$WT" || exit 2
 git checkout -q -- . ; rm -f tests/zz_demo.rs
 git apply "$MD/patch.diff" || { echo "NOT-CONFIRMED: patch does not apply"; exit 1; }
-cargo test --workspace --no-fail-fast --offline > /tmp/confirm_suite_$$.log 2>&1
-fails=$(grep -E "^test result" /tmp/confirm_suite_$$.log | awk '{s+=$6} END {print s+0}')
-passes=$(grep -E "^test result" /tmp/confirm_suite_$$.log | awk '{s+=$4} END {print s+0}')
+# (the repository's timing-based tests flake when the machine is heavily loaded: up to three attempts)
+for attempt in 1 2 3; do
+  cargo test --workspace --no-fail-fast --offline > /tmp/confirm_suite_$$.log 2>&1
+  fails=$(grep -E "^test result" /tmp/confirm_suite_$$.log | awk '{s+=$6} END {print s+0}')
+  passes=$(grep -E "^test result" /tmp/confirm_suite_$$.log | awk '{s+=$4} END {print s+0}')
+  [ "$fails" = "0" ] && [ "$passes" -ge 61 ] && break
+  echo "suite attempt $attempt: passed=$passes failed=$fails ($(grep -E '^test .* FAILED' /tmp/confirm_suite_$$.log | head -3 | tr '\n' ' '))"
+done
 echo "suite with mutation: passed=$passes failed=$fails"
 cp "$MD/demo.rs" tests/zz_demo.rs
 # DEMO_RUSTFLAGS / DEMO_FEATURES: how the demo (not the suite) is built, e.g. the callbag_verif hooks or --features tracing
